@@ -417,6 +417,8 @@ class Run:
 def _exc_name(e):
     if isinstance(e, (TaskBoom, IterBoom)):
         return f"{type(e).__name__}({e.args[0]})"
+    if isinstance(e, RuntimeError) and "already running" not in str(e):
+        return "RuntimeError:" + "-".join(str(e).split()[:4])
     return type(e).__name__
 
 
